@@ -5,31 +5,22 @@ From Coq Require Import List NArith Bool Arith.
 Import ListNotations.
 From PV Require Import Regex Base LexTables NodeModel ParserBase ParserDecl ParserMain Api StmtExamples.
 
-(* outcome of the whole-pipeline model on a text, coordinates erased, token counter dropped *)
-Definition outcome_str (text: str) : str :=
-  match run_parse text (s2l "f.c") with
-  | Ok (ast, _) => s2l "OK|" ++ show_ast (N.to_nat 1000) false ast
-  | Err l m => s2l "E|" ++ show_loc l ++ s2l ": " ++ m
-  | Crash k => s2l "C|" ++ crash_name k
-  | OutOfFuel => s2l "R"
-  end.
-
 (* the else belongs to the nearest unmatched if (C99 6.8.4.1p3) *)
 Theorem C05_dangling_else :
   outcome_str (s2l "void f(){ if (a) if (b) x; else y; }") = s2l "OK|(FileAST [(FuncDef (Decl 'f' [] [] [] [] (FuncDecl None (TypeDecl 'f' [] None (IdentifierType ['void']))) None None) None (Compound [(If (ID 'a') (If (ID 'b') (ID 'x') (ID 'y')) None)]))])".
-Proof. exact C05_dangling_else. Qed.
+Proof. exact ex_C05_dangling_else. Qed.
 Print Assumptions C05_dangling_else.
 
 (* statements go under the nearest preceding label; consecutive labels stay siblings *)
 Theorem C05_switch_regroup :
   outcome_str (s2l "void f(){ switch(x){ case 1: a; b; case 2: case 3: c; default: d; } }") = s2l "OK|(FileAST [(FuncDef (Decl 'f' [] [] [] [] (FuncDecl None (TypeDecl 'f' [] None (IdentifierType ['void']))) None None) None (Compound [(Switch (ID 'x') (Compound [(Case (Constant 'int' '1') [(ID 'a'),(ID 'b')]),(Case (Constant 'int' '2') []),(Case (Constant 'int' '3') [(ID 'c')]),(Default [(ID 'd')])]))]))])".
-Proof. exact C05_switch_regroup. Qed.
+Proof. exact ex_C05_switch_regroup. Qed.
 Print Assumptions C05_switch_regroup.
 
 (* a declaration init lands in a DeclList *)
 Theorem C05_for_decl :
   outcome_str (s2l "void f(){ for(int i=0;i<3;i++) x; }") = s2l "OK|(FileAST [(FuncDef (Decl 'f' [] [] [] [] (FuncDecl None (TypeDecl 'f' [] None (IdentifierType ['void']))) None None) None (Compound [(For (DeclList [(Decl 'i' [] [] [] [] (TypeDecl 'i' [] None (IdentifierType ['int'])) (Constant 'int' '0') None)]) (BinaryOp '<' (ID 'i') (Constant 'int' '3')) (UnaryOp 'p++' (ID 'i')) (ID 'x'))]))])".
-Proof. exact C05_for_decl. Qed.
+Proof. exact ex_C05_for_decl. Qed.
 Print Assumptions C05_for_decl.
 
 (* each pragma once, verbatim, in place; a pragma-prefixed sub-statement is wrapped in a Compound *)
@@ -41,12 +32,12 @@ Theorem C05_pragma_once :
 #pragma p2
  y;
 }") = s2l "OK|(FileAST [(FuncDef (Decl 'f' [] [] [] [] (FuncDecl None (TypeDecl 'f' [] None (IdentifierType ['void']))) None None) None (Compound [(Pragma 'p1'),(ID 'x'),(If (ID 'a') (Compound [(Pragma 'p2'),(ID 'y')]) None)]))])".
-Proof. exact C05_pragma_once. Qed.
+Proof. exact ex_C05_pragma_once. Qed.
 Print Assumptions C05_pragma_once.
 
 (* witness: a static assertion as a sub-statement puts a list into a statement slot *)
 Theorem C05_static_assert_stmt_refuted :
   outcome_str (s2l "void f(){ if (x) _Static_assert(1,""a""); }") = s2l "OK|(FileAST [(FuncDef (Decl 'f' [] [] [] [] (FuncDecl None (TypeDecl 'f' [] None (IdentifierType ['void']))) None None) None (Compound [(If (ID 'x') [(StaticAssert (Constant 'int' '1') (Constant 'string' '""a""'))] None),(EmptyStatement)]))])".
-Proof. exact C05_static_assert_stmt_refuted. Qed.
+Proof. exact ex_C05_static_assert_stmt_refuted. Qed.
 Print Assumptions C05_static_assert_stmt_refuted.
 
